@@ -57,9 +57,15 @@ def gen_boxes(rng):
 
 
 def shape_el(rng, eid, box):
-    k = rng.choice(["rect", "rect", "circle", "ellipse"])
+    k = rng.choice(["rect", "rect", "circle", "ellipse", "use", "group"])
     if k == "circle" and box.w != box.h:
         k = "ellipse"
+    if k == "use":
+        # an instance of a template drawn at the origin, translated to the box's place
+        return '<defs><rect id="t%s" width="%s" height="%s"/></defs><use id="%s" href="#t%s" x="%s" y="%s"/>' % (
+            eid, fmt(box.w), fmt(box.h), eid, eid, fmt(box.x1), fmt(box.y1))
+    if k == "group":
+        return '<g id="%s"><rect xy="%s %s" wh="%s %s"/></g>' % (eid, fmt(box.x1), fmt(box.y1), fmt(box.w), fmt(box.h))
     if k == "rect":
         return '<rect id="%s" xy="%s %s" wh="%s %s"/>' % (eid, fmt(box.x1), fmt(box.y1), fmt(box.w), fmt(box.h))
     if k == "circle":
@@ -100,6 +106,11 @@ def make_case(rng):
     if kind == "corner" and rng.random() < 0.5:
         off = rng.choice([("abs", F(2)), ("abs", F(5)), ("pct", F(25)), ("pct", F(75))])
         extra = ' corner-offset="%s%s"' % (fmt(off[1]), "%" if off[0] == "pct" else "")
+    unused = None
+    if kind != "corner" and rng.random() < 0.2:
+        # a control attribute the connector kind does not use must be consumed all the same
+        unused = rng.choice(["7", "3", "2.5"])
+        extra += ' corner-offset="%s"' % unused
     el = "polyline" if kind == "corner" else "line"
     conn = '<%s id="k" start="%s" end="%s"%s/>' % (el, t1, t2, extra)
     items = [shape_el(rng, "a", A), shape_el(rng, "b", B), conn]
@@ -113,7 +124,8 @@ def make_case(rng):
         if s[0] == "lit":
             return ["lit", [fmt(s[1][0]), fmt(s[1][1])]]
         return ["auto"]
-    feats = ["kind." + kind, "place." + cls, "start." + s1[0], "end." + s2[0]] + (["corner-offset." + off[0]] if off else []) + (["forward-ref"] if order[0] == 2 or order[1] == 2 else [])
+    feats = ["kind." + kind, "place." + cls, "start." + s1[0], "end." + s2[0]] + (["corner-offset." + off[0]] if off else []) + (["forward-ref"] if order[0] == 2 or order[1] == 2 else []) + \
+        (["corner-offset.unused"] if unused else [])
     return dict(input=doc.encode(), kind=kind, A=[fmt(v) for v in A.tuple()], B=[fmt(v) for v in B.tuple()], s1=enc(s1), s2=enc(s2), feats=feats)
 
 
